@@ -36,7 +36,7 @@ for d in sorted(glob.glob(os.path.join(V, "seeded", f"C??-{wave}?"))):
                                         "status_first_run": st, "wave": desc,
                                         "ran": "tools/seed_confirm.py (scratch worktree of /repo HEAD + core build; demo on clean and patched; VERIF_REPO=<patched> ./check %s --tier quick)" % pid}
         json.dump(m, open(mp, "w"), indent=1)
-    k = m["confirmed_by_integrator"]["status_first_run"].split(" ")[0].split(":")[0]
+    k = str(m["confirmed_by_integrator"].get("status_first_run", "?")).split(" ")[0].split(":")[0]
     tot[k] = tot.get(k, 0) + 1
     print(os.path.basename(d), m["confirmed_by_integrator"]["status_first_run"][:60])
 print(tot)
